@@ -80,7 +80,7 @@ def build_trace(tid, E, sessions):
                 else:
                     x.append([0, I(lines[i])])
                 i += 1
-        out.append({'x': x, 'q': bool(s['q']), 'tie': tie})
+        out.append({'x': x, 'q': bool(s['q']), 'tie': tie, 'qn': -1 if s.get('qn') is None else int(s['qn'])})
         npos = NE + 1 if replay else pos
     return {'tid': tid, 'E': Et, 'sess': out}
 
@@ -113,7 +113,14 @@ def gated_histories(path, E, scripts, rng, n_random, work):
             pcfg = ptq.load_pcfg(path, save_file=fn)
             run = gated.GatedRun(pcfg, session.new_save_config(), fn, script)
             r = run.run(chooser)
-            sess = [{'lines': r['lines'], 'q': r['q_consumed'], 'saved': None}]
+            qn = None
+            cnt = 0
+            for who, gate, info in r['log']:
+                if who == 'M' and gate == 'emit':
+                    cnt += 1
+                if who == 'K' and gate == 'set_exit':
+                    qn = cnt
+            sess = [{'lines': r['lines'], 'q': r['q_consumed'], 'saved': None, 'qn': qn}]
             m = {'script': script, 'schedule': ''.join(r['schedule']), 'label': label, 'error': r['error']}
             if len(r['lines']) < len(E) or r['error']:
                 sess.append(resume_to_end(path, fn))
@@ -132,6 +139,66 @@ def gated_histories(path, E, scripts, rng, n_random, work):
             pk = rng.choice([0.1, 0.3, 0.5, 0.8])
             seed = rng.random()
             r2 = random.Random(seed)
+
+            def rnd(enabled, step, gates, r2=r2, pk=pk):
+                if 'K' in enabled and r2.random() < pk:
+                    return 'K'
+                return 'M'
+            one(rnd, 'random pk=%s' % pk)
+    return res
+
+
+def gated_resume_histories(path, E, rng, n_random, work):
+    """session 1 is cut inside a Markov level (scripted), session 2 (--load, restores the level) runs gated
+    with a keyboard script under many schedules, session 3 resumes to the end"""
+    res = []
+    mpos = [k for k, e in enumerate(E, 1) if e[1]]
+    if not mpos:
+        return res
+    for script in (['q', 'block'], ['', 'block'], ['', 'q', 'block']):
+        g1 = rng.choice(mpos)
+
+        def one(chooser, label):
+            fn = os.path.join(work, 'gr.sav')
+            for f in (fn, fn[:-4] + '.omn'):
+                if os.path.exists(f):
+                    os.remove(f)
+            pcfg = ptq.load_pcfg(path, save_file=fn)
+            r1 = session.run_session(pcfg, session.new_save_config(), fn, quit_at_guess=g1)
+            sess = [{'lines': r1['lines'], 'q': r1['quit'], 'saved': None, 'qn': g1 if r1['quit'] else None}]
+            if len(r1['lines']) >= len(E):
+                return None
+            cfg, info = session.load_save(fn)
+            sp = saved_prob(fn)
+            pcfg2 = ptq.load_pcfg(path, save_file=fn)
+            run = gated.GatedRun(pcfg2, cfg, fn, script, load=True)
+            r = run.run(chooser)
+            qn = None
+            cnt = 0
+            for who, gate, info2 in r['log']:
+                if who == 'M' and gate == 'emit':
+                    cnt += 1
+                if who == 'K' and gate == 'set_exit':
+                    qn = cnt
+            sess.append({'lines': r['lines'], 'q': r['q_consumed'], 'saved': sp, 'qn': qn})
+            if sum(len(x['lines']) for x in sess) < len(E) or r['error']:
+                sess.append(resume_to_end(path, fn))
+            res.append((sess, {'script': script, 'schedule': ''.join(r['schedule']), 'label': 'resumed session, ' + label,
+                               'first_quit_after': g1, 'error': r['error']}))
+            return r
+        base = one(gated.main_first, 'main first')
+        if base is None:
+            continue
+        L = len(base['schedule'])
+        for p in range(0, L + 1):
+            def burst(enabled, step, gates, p=p):
+                if step >= p and 'K' in enabled:
+                    return 'K'
+                return 'M'
+            one(burst, 'keyboard burst at step %d' % p)
+        for k in range(n_random):
+            r2 = random.Random(rng.random())
+            pk = rng.choice([0.2, 0.5])
 
             def rnd(enabled, step, gates, r2=r2, pk=pk):
                 if 'K' in enabled and r2.random() < pk:
@@ -211,7 +278,7 @@ def quit_histories(path, E, rng, tier, work):
                 sp = saved_prob(fn)
                 pcfg = ptq.load_pcfg(path, save_file=fn)
                 r = session.run_session(pcfg, cfg, fn, load=True, quit_at_guess=g)
-            sess.append({'lines': r['lines'], 'q': r['quit'], 'saved': sp})
+            sess.append({'lines': r['lines'], 'q': r['quit'], 'saved': sp, 'qn': g if r['quit'] else None})
             total += len(r['lines'])
         sess.append(resume_to_end(path, fn))
         res.append((sess, {'quit_after_guesses': plan, 'via': 'CrackingSession.run, scripted keyboard thread'}))
@@ -263,6 +330,7 @@ def main(pid, tier, seed):
             if tier == 'quick':
                 scripts = scripts[:5] if k == 0 else rng.sample(scripts, 3)
             hs = gated_histories(path, E, scripts, rng, 6 if tier == 'quick' else 40, work)
+            hs += gated_resume_histories(path, E, rng, 3 if tier == 'quick' else 20, work)
             name = 'v%d' % k
             os.symlink(path, os.path.join(rcopy, 'Rules', name))
             hs += cli_histories(rcopy, name, E, tier)
